@@ -2,6 +2,10 @@
 
 # engine -> (regex on the driver's branch tags that makes a case non-trivial, description)
 ENGINE_RULES = {
+    "scan": (r"(ovf=1|fast=1|moved=[1-9]|run=[1-9])",
+             "scanner x type x input x offset x buffered amount (random numerals around the type bounds, all "
+             "terminators; with opt=exhaustive every string over {space,tab,CR,LF,'a','0'} up to length 4 (quick) / 6 "
+             "(thorough) x offsets x patterns x buffered 0/all); non-trivial = overflow, fast path, or a non-empty run"),
     "comb": (None, "complete enumeration of combinator x input case x closure behaviour; every case distinct"),
     "reader": (r"(realign|shrink|panic)=[1-9]",
                "random op histories over random sources/schedules; non-trivial = the model took a realign, "
@@ -12,6 +16,8 @@ HOOK_COMMITS = []
 
 # (name, path, description)
 ENGINES = [
+    ("scan", "harness/src/eng_scan.rs + lean/Driver/EngScan.lean",
+     "flussab::text scanners on the real reader vs. the Lean model vs. arbitrary-precision / slice references"),
     ("comb", "harness/src/eng_comb.rs + lean/Driver/EngComb.lean",
      "complete enumeration of the combinator domain with counting closures, impl vs. Lean model"),
     ("reader", "harness/src/eng_reader.rs + lean/Driver/EngReader.lean",
@@ -71,4 +77,34 @@ PROPS = {
              "parser models in a later step of this build; until then it is carried by the format engines' "
              "line-source oracle only. Trusted: Lean kernel, harness.",
         assumptions=["chunk >= 1"]),
+    "C13": dict(
+        module="Flussab.Props.C13", engines=[("scan", 30000, 1500000, "")], release=True,
+        bv_decide_theorems=["fast_path_exact", "multi_eq_simple", "signed_multi_eq_simple"],
+        claim="Theorems generic in the integer type (signedness x width, so all 12 Rust types): ascii_digits and "
+              "signed_ascii_digits return the offset past the longest digit run and the exact value iff "
+              "representable, None otherwise (digits_exact, signed_digits_exact, via the sticky-flag loop invariant "
+              "digitsLoop_spec); a lone '-' is not consumed; the _multi variants equal the simple ones for every "
+              "buffer content and every amount of buffered data (multi_eq_simple, signed_multi_eq_simple). The 8-byte "
+              "SWAR kernel is translated from text.rs on every run (tools/gen_swar.py) and proved correct for all "
+              "2^64 words (Flussab.Swar.swar_c0..c8). Tie for the surrounding Rust: scan engine, all types, "
+              "boundary numerals, all buffered amounts around the 8-byte threshold.",
+        note="Axioms: propext, Classical.choice, Quot.sound, plus the per-call bv_decide native axioms "
+             "(Lean.ofReduceBool on the verified LRAT checker) for the kernel lemmas and the three theorems that use "
+             "them - accepted, stated in DESIGN.md §6. Trusted: gen_swar.py translator (validated by running the "
+             "generated definition against the Rust function in the scan engine), harness.",
+        trusted=["tools/gen_swar.py (Rust -> BitVec translator)", "bv_decide: cadical + verified LRAT checker run natively"],
+        assumptions=["usize/isize are 64 bit"]),
+    "C16": dict(
+        module="Flussab.Props.C16", engines=[("scan", 0, 0, "exhaustive"), ("scan", 20000, 400000, "")],
+        exhaustive=False,
+        claim="Closed-form theorems for all inputs, offsets and patterns (no length bound): tabs_or_spaces, newline "
+              "(LF, CRLF, lone CR, CR at end), next_newline, fixed (empty / cut / longer-than-input pattern) return "
+              "exactly the documented offset (…_spec), never consume (scanners_do_not_consume), and look at no byte "
+              "beyond the one that decides (the view after each scanner is `demand j` for the explicit j; fixed stops "
+              "at the first mismatch). demand_on_reader lifts this to every concrete reader and schedule. Tie: scan "
+              "engine - complete enumeration of short strings plus random longer ones, comparing offset, position and "
+              "the source's delivered-byte counter.",
+        note="Trusted: Lean kernel, harness. The bytes-pulled bound combines the look-ahead ghost with C09's "
+             "reads_only_when_demanded.",
+        assumptions=[]),
 }
